@@ -1408,7 +1408,7 @@ func r01_9(c *Ctx) {
 					started = call
 				}
 			})
-			good = started != nil && !reachesAvoiding(afterInstr(started), reset, func(in ssa.Instruction) bool { return in == ssa.Instruction(off) }, blocked)
+			good = started != nil && instrDominates(started, reset) && instrDominates(started, off) && !reachesAvoiding(afterInstr(started), reset, func(in ssa.Instruction) bool { return in == ssa.Instruction(off) }, blocked)
 			// Reset receives the scanner's token text
 			if good {
 				_, isText := isStaticCall(reset.Call.Args[1], "(*bufio.Scanner).Text")
